@@ -79,6 +79,14 @@ def seq_deb(var, adjust, **kw):
     return d
 
 
+def raised_in_real_code(ex):
+    """the exception left a frame of the ibicus package (the real code raised on the input; anything else is a defect
+    of this harness and must surface as an infrastructure error)"""
+    import traceback
+
+    return any("/ibicus/" in fr.filename.replace("\\", "/") for fr in traceback.extract_tb(ex.__traceback__))
+
+
 def tok(x):
     """exact token of a float for the driver (values are opaque to the assignment model)"""
     x = float(x)
@@ -326,23 +334,45 @@ def nr_cases(rng, small, count, big, cs, problems, res):
 
 
 # ------------------------------------------------------------------ 4. the two masks
-def mask_cases(nmax, cs, res):
+def mask_cases(nmax, cs, problems, res):
+    """the two rank masks on sorted arrays without and WITH ties (coarse-resolution data): for 0 <= nr <= n exactly the
+    first / last nr entries are selected, whatever the values are"""
     ISIMIP = _isimip()
+    fns = (("lower", "lmask", ISIMIP._step6_get_mask_for_entries_to_set_to_lower_bound),
+           ("upper", "umask", ISIMIP._step6_get_mask_for_entries_to_set_to_upper_bound))
     for n in range(0, nmax + 1):
-        x = np.arange(n, dtype=float)
-        for nr in range(-n - 2, n + 3):
-            lo = ISIMIP._step6_get_mask_for_entries_to_set_to_lower_bound(nr, x)
-            up = ISIMIP._step6_get_mask_for_entries_to_set_to_upper_bound(nr, x)
-            cs.add(f"lmask {nr} {n}", "lower-mask", {"nr": nr, "n": n}, exact(mstr(lo)))
-            cs.add(f"umask {nr} {n}", "upper-mask", {"nr": nr, "n": n}, exact(mstr(up)))
-            res.count(("mask", n, nr), 0 <= nr <= n)
+        arrays = [("distinct", np.arange(n, dtype=float)), ("tied", np.floor(np.arange(n, dtype=float) / 3)),
+                  ("constant", np.full(n, 2.0))]
+        for label, x in arrays if n else arrays[:1]:
+            for nr in range(-n - 2, n + 3) if label == "distinct" else range(0, n + 1):
+                well_formed = 0 <= nr <= n
+                for side, op, f in fns:
+                    case = {"kind": "mask", "side": side, "nr": nr, "cm_future_sorted": x.tolist()}
+                    try:
+                        m = np.asarray(f(nr, x.copy()))
+                    except Exception as ex:  # noqa: BLE001
+                        if well_formed:
+                            problems.append((f"mask of the entries to set to the {side} bound raises {type(ex).__name__} on a sorted array "
+                                             "and a count 0 <= nr <= n", case))
+                        cs.add(f"{op} {nr} {n}", f"{side}-mask", case, exact("error:" + type(ex).__name__))
+                        continue
+                    want = np.zeros(n, dtype=bool)
+                    if side == "lower":
+                        want[: max(nr, 0)] = True
+                    else:
+                        want[n - min(max(nr, 0), n):] = True
+                    if well_formed and (m.dtype != bool or m.shape != (n,) or not np.array_equal(m, want)):
+                        problems.append((f"mask of the entries to set to the {side} bound does not select exactly the "
+                                         f"{'first' if side == 'lower' else 'last'} nr entries", {**case, "mask": mstr(m) if m.dtype == bool else repr(m)[:80]}))
+                    cs.add(f"{op} {nr} {n}", f"{side}-mask", case, exact(mstr(m) if m.dtype == bool and m.ndim == 1 else repr(m)[:80]))
+                res.count(("mask", label, n, nr), well_formed)
 
 
 # ------------------------------------------------------------------ 5. the real step6
 VARS = ("pr", "hurs", "prsnratio")
 
 
-def gen_series(rng, var, deb, n, frac_lo, frac_hi, wet_scale=1.0, ties=False, near=None):
+def gen_series(rng, var, deb, n, frac_lo, frac_hi, wet_scale=1.0, ties=False, near=None, coarse=False):
     """n values: round(frac_lo*n) beyond the lower threshold, round(frac_hi*n) beyond the upper one, rest strictly
     between the thresholds (moderate, exactly representable values)"""
     k_lo = min(n, int(round(frac_lo * n)))
@@ -364,6 +394,8 @@ def gen_series(rng, var, deb, n, frac_lo, frac_hi, wet_scale=1.0, ties=False, ne
                 span = (0.2 if var == "hurs" else 2e-3)
                 d = min((ut_ - lt_) / 2, (0.015 * span + span * rng.random()) * wet_scale)
                 v = lt_ + d if near == "lower" else ut_ - d
+        elif coarse:  # coarse-resolution data: many equal values strictly between the thresholds
+            v = (float(rng.randint(1, 5)) if var == "pr" else (float(rng.choice([10, 20, 30, 50, 80])) if var == "hurs" else rng.randint(1, 6) / 8))
         elif var == "pr":
             v = rng.randint(1, 3200) / 64 * wet_scale
         elif var == "hurs":
@@ -510,6 +542,7 @@ def step6_cases(rng, count, nmax, cs, problems, res):
                                  {"kind": "sequence", "variable": var, "adjust": adj, "custom": custom}))
                 continue
         ties = rng.random() < 0.25
+        coarse = rng.random() < 0.3
         kind = rng.choice(["free", "free", "free", "overlap", "same-hist-future", "same-hist-obs", "tiny"])
         n_o, n_h, n_f = (rng.randint(1, 6) for _ in range(3)) if kind == "tiny" else (rng.randint(6, nmax) for _ in range(3))
         two = has_ut(deb)
@@ -526,15 +559,15 @@ def step6_cases(rng, count, nmax, cs, problems, res):
             f_f, n_f = f_h, n_h
         if kind == "same-hist-obs":
             f_h, n_h = f_o, n_o
-        obs = gen_series(rng, var, deb, n_o, *f_o, ties=ties)
-        cmh = gen_series(rng, var, deb, n_h, *f_h, wet_scale=rng.choice([1.0, 0.7, 1.3]), ties=ties)
-        cmf = gen_series(rng, var, deb, n_f, *f_f, wet_scale=rng.choice([1.0, 0.8, 1.5]), ties=ties)
+        obs = gen_series(rng, var, deb, n_o, *f_o, ties=ties, coarse=coarse and rng.random() < 0.5)
+        cmh = gen_series(rng, var, deb, n_h, *f_h, wet_scale=rng.choice([1.0, 0.7, 1.3]), ties=ties, coarse=coarse and rng.random() < 0.5)
+        cmf = gen_series(rng, var, deb, n_f, *f_f, wet_scale=rng.choice([1.0, 0.8, 1.5]), ties=ties, coarse=coarse)
         if rng.random() < 0.08:
             obsf = gen_series(rng, var, deb, n_o, 1.0, 0.0)  # nothing between the thresholds to map to
         else:
             a, b = fr()
             obsf = gen_series(rng, var, deb, max(n_o, 4), min(a, 0.7), min(b, 0.2))
-        case = {"variable": var, "adjust": adj, "kind": kind, "n": [n_o, n_h, n_f], "values_on_threshold_only": ties,
+        case = {"variable": var, "adjust": adj, "kind": kind, "n": [n_o, n_h, n_f], "values_on_threshold_only": ties, "coarse_resolution": coarse,
                 "frac_beyond": [list(map(float, f_o)), list(map(float, f_h)), list(map(float, f_f))]}
         if seq:
             case["sequence"] = SEQ_NOTE
@@ -546,8 +579,13 @@ def step6_cases(rng, count, nmax, cs, problems, res):
         try:
             out, rec, raw, exp = run_step6(deb, obs, obsf, cmh, cmf)
         except Exception as ex:  # noqa: BLE001
+            if not raised_in_real_code(ex):
+                raise
             res.extra["step6_exceptions"] += 1
-            res.notes.append(f"step6 raised {type(ex).__name__}: {str(ex)[:120]} on {case}") if len(res.notes) < 5 else None
+            problems.append((f"step6 raises {type(ex).__name__} on well-formed series ({str(ex)[:100]})",
+                             {"kind": "step6", "variable": var, "adjust": adj, **{k: case[k] for k in ("sequence", "custom") if k in case},
+                              "obs_hist": obs.tolist(), "obs_future": obsf.tolist(), "cm_hist": cmh.tolist(), "cm_future": cmf.tolist(),
+                              "exception": type(ex).__name__}))
             continue
         res.extra["step6_runs"] += 1
         step6_oracle(var, adj, deb, obs, obsf, cmh, cmf, out, rec, exp, problems, res,
@@ -804,7 +842,8 @@ def pipeline_cases(rng, count, problems, res, cs=None):
         path = paths[(i // 3 + i) % 3]
         near = rng.choice([None, "lower", "lower", "upper" if var != "pr" else "lower"])
         ties = near is None and rng.random() < 0.34
-        fi = {"kind": "pipeline", "variable": var, "adjust": adj, "sequence": i % 2 == 1, "mode": mode, "path": path,
+        coarse = near is None and rng.random() < 0.4
+        fi = {"kind": "pipeline", "coarse_resolution": coarse, "variable": var, "adjust": adj, "sequence": i % 2 == 1, "mode": mode, "path": path,
               "near": near, "numpy_seed": rng.randint(0, 2**31 - 1)}
         starts = []
         for y0 in (1980, 1981, 2050):
@@ -835,15 +874,17 @@ def pipeline_cases(rng, count, problems, res, cs=None):
                 idx = np.where(mon == m)[0]
                 if idx.size:
                     x[idx] = gen_series(rng, var, deb, idx.size, min(0.9, base_lo * 2 * season[m - 1]), base_hi,
-                                        wet_scale=sc, ties=ties, near=near)
+                                        wet_scale=sc, ties=ties, near=near, coarse=coarse and (name == "cm_future" or rng.random() < 0.5))
             fi[name] = x.tolist()
         try:
             _pipeline_run(fi, problems, res, cs)
             res.extra["pipeline_runs"] += 1
         except Exception as ex:  # noqa: BLE001
+            if not raised_in_real_code(ex):
+                raise
             res.extra["pipeline_skipped"] += 1
-            if len(res.notes) < 5:
-                res.notes.append(f"pipeline case [{var}, {mode}, {path}] raised {type(ex).__name__}: {str(ex)[:160]}")
+            problems.append((f"{path} ({mode} mode) raises {type(ex).__name__} on well-formed series ({str(ex)[:100]})",
+                             {**fi, "exception": type(ex).__name__}))
 
 
 # ------------------------------------------------------------------ 7. missing values: two encodings of the same data
@@ -972,9 +1013,11 @@ def masked_cases(rng, count, problems, res):
             _masked_run(fi, problems, res)
             res.extra["masked_runs"] += 1
         except Exception as ex:  # noqa: BLE001
+            if not raised_in_real_code(ex):
+                raise
             res.extra["masked_skipped"] += 1
-            if len(res.notes) < 5:
-                res.notes.append(f"apply with missing values [{var}] raised {type(ex).__name__}: {str(ex)[:160]}")
+            problems.append((f"apply with missing values raises {type(ex).__name__} on well-formed series ({str(ex)[:100]})",
+                             {**fi, "exception": type(ex).__name__}))
 
 
 ISI_CONFIGS = ["pr_mult", "pr_mixed", "pr_nofreq", "pr_npqm", "skew_npqm", "skew_param", "hurs", "hurs_param_freq"]
@@ -1032,7 +1075,7 @@ def run(tier, res, force_search=False):
     p_near_isclose(rng, (150 if quick else 1500) * boost, cs, problems, res)
     scale_cases(rng, 40, (200 if quick else 3000) * boost, cs, problems, res)
     nr_cases(rng, 3 if quick else 5, (300 if quick else 3000) * boost, 60 if quick else 400, cs, problems, res)
-    mask_cases(12, cs, res)
+    mask_cases(12, cs, problems, res)
     step6_cases(rng, (180 if quick else 2400) * boost, 80 if quick else 400, cs, problems, res)
     pipeline_cases(rng, 12 if quick else 72, problems, res, cs)
 
@@ -1142,6 +1185,18 @@ def replay(data):
               f"round(n*P) = {exp['lower'][0]}/{exp['upper'][0]}")
     elif kind == "masked":
         _masked_run(fi, problems, res)
+    elif kind == "mask":
+        x = np.array(fi["cm_future_sorted"], dtype=float)
+        f = (ISIMIP._step6_get_mask_for_entries_to_set_to_lower_bound if fi["side"] == "lower"
+             else ISIMIP._step6_get_mask_for_entries_to_set_to_upper_bound)
+        try:
+            m = np.asarray(f(fi["nr"], x))
+            print(f"mask({fi['nr']}, {x.tolist()}) = {mstr(m)}")
+            if int(m.sum()) != fi["nr"]:
+                problems.append(("mask", fi))
+        except Exception as ex:  # noqa: BLE001
+            print(f"mask({fi['nr']}, {x.tolist()}) raises {type(ex).__name__}")
+            problems.append(("mask", fi))
     elif kind == "pipeline":
         _pipeline_run(fi, problems, res)
     else:
